@@ -23,6 +23,13 @@ CONSTANTS
   TgItems = 2
   Precisions = {0, 1, 2, 3, 5}
   Base = 3
+  TgUTimes <- TgUTimesQuick
+  TgUItems = 2
+  TgUPrecisions = {1, 3}
+  TrnIdCores <- TrnIdCoresQuick
+  TrnIdPad = 2
+  TrnIdPadColl = 1
+  TrnIdUtts = 2
   TokTimes <- TokTimesQuick
   TokItems = 2
   Shifts <- ShiftsQuick
@@ -39,5 +46,11 @@ INVARIANT TgMonotone
 INVARIANT TgFillAgree
 INVARIANT TgFillPartition
 INVARIANT TokBound
+INVARIANT TrnIdRoundTrip
+INVARIANT TrnIdInjective
+INVARIANT TguRoundTrip
+INVARIANT TguBoundsNearest
+INVARIANT TguFillAgree
+INVARIANT TguExtendsTg
 INVARIANT Export
 CHECK_DEADLOCK FALSE
